@@ -348,6 +348,142 @@ def run_tls(case: dict):
     return ok(**info)
 
 
+# ---------------------------------------------------------------- live sockets with shortened timeouts (thorough tier)
+
+_live15: dict = {}
+LIVE_REQ_TIMEOUT, LIVE_HS_TIMEOUT = 0.8, 1.5
+
+
+def _live_ports():
+    if _live15:
+        return _live15
+    import asyncio.constants as ac
+
+    import nauyaca.server.protocol as sp
+    import nauyaca.server.tls_protocol as tp
+    from nauyaca.protocol.response import GeminiResponse
+    from vlib import livenet
+
+    setup_logging()
+    sp.REQUEST_TIMEOUT = LIVE_REQ_TIMEOUT
+    tp.HANDSHAKE_TIMEOUT = LIVE_HS_TIMEOUT
+    ac.SSL_HANDSHAKE_TIMEOUT = LIVE_HS_TIMEOUT
+    ac.SSL_SHUTDOWN_TIMEOUT = 1.0
+
+    def handler(req):
+        return GeminiResponse(status=20, meta="text/gemini", body="B")
+
+    class Up:
+        async def handle_upload(self, request):
+            return GeminiResponse(status=20, meta="text/gemini", body="S")
+
+    for backend in ("stdlib", "pyopenssl"):
+        factory, sslctx = stacks.manual_stack(backend, handler, None, Up())
+        _live15[backend] = livenet.bg().serve("c15-" + backend, factory, sslctx)
+    return _live15
+
+
+LIVE_STAGES = ["no-bytes", "partial-hello", "hello-only", "mid-line", "after-line-titan", "mid-upload", "complete"]
+
+
+def enum_live(tier):
+    for backend in ("stdlib", "pyopenssl"):
+        for vn in VERS:
+            for stage in LIVE_STAGES:
+                yield {"backend": backend, "tls": vn, "stage": stage}
+
+
+def _live_once(case):
+    import socket
+    import time
+
+    port = _live_ports()[case["backend"]]
+    ver = VERS[case["tls"]]
+    stage = case["stage"]
+    cl = memnet.MemTls(memnet.permissive_client_ctx(minv=ver, maxv=ver), server_side=False, server_hostname="localhost")
+    sk = socket.create_connection(("127.0.0.1", port), timeout=5)
+    sk.settimeout(0.3)
+    t0 = time.monotonic()
+    closed_at = None
+
+    def pump_in(budget):
+        nonlocal closed_at
+        end = time.monotonic() + budget
+        while time.monotonic() < end and closed_at is None:
+            try:
+                d = sk.recv(65536)
+            except socket.timeout:
+                cl.step()
+                return
+            except OSError:
+                closed_at = time.monotonic() - t0
+                return
+            if not d:
+                closed_at = time.monotonic() - t0
+                cl.put_eof()
+                return
+            cl.put(d)
+            cl.step()
+
+    try:
+        if stage != "no-bytes":
+            cl.step()
+            hello = cl.take()
+            if stage == "partial-hello":
+                sk.sendall(hello[:100])
+            else:
+                sk.sendall(hello)
+                if stage != "hello-only":
+                    for _ in range(20):
+                        pump_in(0.5)
+                        out = cl.take()
+                        if out:
+                            sk.sendall(out)
+                        if cl.handshaken:
+                            break
+                    if not cl.handshaken:
+                        return {"error": f"live handshake did not complete: {cl.error!r}"}
+                    payload = {"mid-line": REQS[1][:20], "after-line-titan": REQS[3][: REQS[3].index(b"\r\n") + 2],
+                               "mid-upload": REQS[3][:-4], "complete": REQS[0]}[stage]
+                    cl.to_send += payload
+                    cl.step()
+                    sk.sendall(cl.take())
+        t_stall = time.monotonic() - t0
+        deadline = time.monotonic() + 12.0
+        while closed_at is None and time.monotonic() < deadline:
+            pump_in(0.5)
+        cl.step()
+        return {"closed_at": closed_at, "stalled_at": t_stall, "plain": bytes(cl.plain), "session": cl.handshaken}
+    finally:
+        sk.close()
+
+
+def run_live(case: dict):
+    r = _live_once(case)
+    if r.get("closed_at") is None and "error" not in r:
+        r = _live_once(case)  # one retry: wall-clock lanes must not alarm on a scheduling hiccup
+    if "error" in r:
+        from vlib.core import HarnessError
+
+        raise HarnessError(r["error"])
+    info = {"closed_after": None if r["closed_at"] is None else round(r["closed_at"] - r["stalled_at"], 2), "plain": b2s(r["plain"][:30])}
+    stage = case["stage"]
+    if stage == "complete":
+        if r["plain"] != b"20 text/gemini\r\nB":
+            return viol("wrong-response-for-complete-request", f"{r['plain'][:40]!r}", **info)
+        return ok(**info)
+    if r["closed_at"] is None:
+        return viol("never-disconnected", f"live {case['backend']} TLS{case['tls']}: silent at stage {stage}; still open 12 s later "
+                    f"(request timeout {LIVE_REQ_TIMEOUT}s, handshake timeout {LIVE_HS_TIMEOUT}s)", where="live-" + stage, **info)
+    if stage in ("mid-line", "after-line-titan", "mid-upload"):
+        wf = srvsim.parse_wf(r["plain"]) if r["plain"] else "empty"
+        if isinstance(wf, str) or wf[0] != 40:
+            return viol("no-40-on-timeout", f"live: TLS session exists, client decrypted {r['plain'][:40]!r}", **info)
+    elif r["plain"]:
+        return viol("response-without-session", f"{r['plain'][:40]!r}", **info)
+    return ok(**info)
+
+
 def _nt_offsets(case, v):
     return 0 < case["k"] < len(REQS[case["req"]])
 
@@ -385,6 +521,13 @@ def _bucket_tls(case, v):
 
 
 LANES = [
+    Lane(name="live-stall", run_case=run_live, enumerate=enum_live, budget={"quick": 0, "thorough": 1},
+         shards={"quick": 1, "thorough": 8}, nontrivial=lambda c, v: c["stage"] != "complete",
+         labels=lambda c, v: [c["backend"], "tls" + c["tls"], "stage:" + c["stage"]], bucket=lambda c, v: v.clause + ":" + c["backend"],
+         exhaustive=True,
+         rule="live loopback sockets, both backends, TLS 1.2/1.3, REQUEST_TIMEOUT / handshake timeouts shortened in the check "
+              "process: peer silent before the hello, inside it, after it, mid request line, after a Titan line, mid upload "
+              "(thorough tier only; 12 s wall-clock margin, one retry)"),
     Lane(name="proto-offsets", run_case=run_offsets, enumerate=enum_offsets, budget={"quick": 1, "thorough": 1},
          shards={"quick": 8, "thorough": 8}, nontrivial=_nt_offsets, labels=_lab_offsets, exhaustive=True,
          rule="every stall offset of 4 representative requests x {one read, byte by byte} (exhaustive)"),
